@@ -4,6 +4,7 @@ import (
 	"bytes"
 	"encoding/gob"
 	"fmt"
+	"strings"
 
 	"github.com/valyala/fastjson"
 )
@@ -163,4 +164,47 @@ func (l Link) Format(s fmt.State, verb rune) {
 	case 's', 'v':
 		_, _ = fmt.Fprintf(s, "%T[%s] {  }", l, l.Type)
 	}
+}
+
+// Equals verifies if our receiver Link is equal with the "with" Link
+func (l Link) Equals(with Item) bool {
+	if IsNil(with) || !IsLink(with) {
+		return false
+	}
+	result := true
+	err := OnLink(with, func(w *Link) error {
+		if !l.ID.Equals(w.ID, true) {
+			result = false
+			return nil
+		}
+		if !strings.EqualFold(string(l.Type), string(w.Type)) {
+			result = false
+			return nil
+		}
+		if !l.Href.Equals(w.Href, false) || !l.Rel.Equals(w.Rel, false) {
+			result = false
+			return nil
+		}
+		if l.MediaType != w.MediaType || l.HrefLang != w.HrefLang || l.Height != w.Height || l.Width != w.Width {
+			result = false
+			return nil
+		}
+		if len(w.Name) > 0 {
+			if !w.Name.Equals(l.Name) {
+				result = false
+				return nil
+			}
+		}
+		if w.Preview != nil {
+			if !ItemsEqual(l.Preview, w.Preview) {
+				result = false
+				return nil
+			}
+		}
+		return nil
+	})
+	if err != nil {
+		result = false
+	}
+	return result
 }
